@@ -1,4 +1,6 @@
 import AasVerif.Lemmas.Yielding.LastStmt
+import AasVerif.Model.YieldingSkeleton
+import AasVerif.Gen.Yielding
 /-!
 # C26 — Yield-flow linearization preserves behaviour
 
@@ -218,6 +220,18 @@ theorem pipeline_full_fails :
   have h3 : Flow.run [.yield] [] = ⟨[.yield], .ended⟩ := by simp [Flow.run, Result.cons]
   rw [h2, h3] at h1
   cases h1
+
+/-- The skeleton of the current sources (regenerated `Gen/Yielding.lean`: statement kinds emitted
+per `_linearize_*`, pass order, control transfers of the emitted C++ blocks, no `break`,
+`default:` throws) is the one the model was written against. -/
+theorem source_skeleton :
+    Gen.Yielding.linearizeShapes = Skeleton.linearizeShapes ∧
+    Gen.Yielding.pipelineCalls = Skeleton.pipelineCalls ∧
+    Gen.Yielding.compressCalls = Skeleton.compressCalls ∧
+    Gen.Yielding.emitTransfers = Skeleton.emitTransfers ∧
+    Gen.Yielding.endOfRoutineAfter = Skeleton.endOfRoutineAfter ∧
+    Gen.Yielding.caseBlocksBreak = Skeleton.caseBlocksBreak ∧
+    Gen.Yielding.defaultThrows = Skeleton.defaultThrows := by decide
 
 /-- non-vacuity of `wfSeq`: nested loops, an empty `or_else`, a trailing `yield` -/
 example : wfSeq [.ifElse true 1 [.yield] [], .whileLoop 2 [.whileLoop 3 []], .yield] = true := by
